@@ -509,6 +509,14 @@ struct BindMachine : Machine {
       default: adv = R.cs.get_proc_last_cpu_location; break;
     }
     if (!adv) { expect_enosys(r, EPN[ep], args, rc, e); return; }
+    // reading a single thread's binding (the calling thread or another one): what hwloc reports is what the kernel answered for that thread,
+    // cut at the last CPU of the complete cpuset - the read half of the round trip, whoever set the binding
+    if (!is_set && rc == 0 && (ep == GET_THREAD_CPUBIND || (ep == GET_CPUBIND && T)) && !R.complete.empty()) {
+      const kmodel::Call *last = nullptr; for (auto &c : cs) if ((c.kind == kmodel::GETAFF || c.kind == kmodel::PGETAFF) && c.ret == 0) last = &c;
+      if (last) { Set expect; unsigned top = *R.complete.rbegin(); for (unsigned x : last->set) if (x <= top) expect.insert(x);
+        if (got != expect) r.fail0("bind.thread_binding_reported", "%s(%s) returned {%s}; the kernel answered {%s} for that thread (complete cpuset ends at %u)", EPN[ep], args, sstr(got).c_str(), sstr(last->set).c_str(), top);
+        r.count("probe.thread_binding_read_checked"); }
+    }
     if (!is_set) return;
     // (2)
     bool covers = incl(g.s, R.topo); Set D = covers ? R.complete : g.s;
